@@ -13,6 +13,7 @@
 #include "pbt.h"
 #include "anasys.h"
 #include "evsys.h"
+#include "schedsub.h"
 #include "SimTKmath.h"
 #include <memory>
 #include <set>
@@ -47,7 +48,7 @@ const char* stName(St s) {
         case Integrator::StartOfContinuousInterval: return "StartOfContinuousInterval"; default: return "Invalid"; }
 }
 
-struct Sched { int kind; std::vector<double> times; double interval; Action act; };   // kind: 0 list handler, 1 periodic handler, 2 list reporter, 3 periodic reporter
+struct Sched { int kind; std::vector<double> times; double interval; Action act; int owner = 0; };   // kind: 0 list handler, 1 periodic handler, 2 list reporter, 3 periodic reporter; owner: 0 DefaultSystemSubsystem (addEventHandler/Reporter), 1 the user-written schedsub::ScheduleSubsystem (list kinds only)
 struct Case {
     bool tsMode = false; int integ = 0; bool accSet = false; double acc = 1e-3; bool interp = true, finalSet = false, reportAll = false, infNorm = false;
     int stepCtl = 0; double h = 0.01; double t0 = 0, T = 1, timescale = 0.1;
@@ -56,6 +57,7 @@ struct Case {
     std::vector<std::string> witPlace;
     std::vector<Sched> scheds;
     std::vector<double> reports;     // ascending chunk ends in (t0, T], last == T
+    bool customSub = false;   // 1 case in 3: list schedules may be owned by a second, user-written Subsystem (gen/schedsub.h)
     bool wide = false;     // "wide window" regime: every internal step is shorter than the localisation requirement of every witness
     int exclZeroDir = 0, exclPassReq = 0;   // placements turned into random ones because of a listed CPodes finding
     bool cpodes() const { return integ >= 8; }
@@ -94,6 +96,7 @@ Case decode(const pbt::Tape& t, bool knownZeroDir, bool knownPassReq) {
     // are also placed a fraction of a step away from crossings (placement "near") so that report and crossing share a step.
     { pbt::Reader g2(t[0]); g2.skip(15); uint32_t w = g2.w(); c.wide = (w % 5 == 1) && !c.cpodes();
       if (c.wide) { c.timescale = 1.0; c.accSet = true; c.acc = 1e-2; c.interp = true; c.stepCtl = ((w >> 4) & 1) ? 2 : 1; c.h = 2e-3 * (1 + ((w >> 5) % 4)); c.T = std::min(c.T, 0.3 + 0.7 * ((w >> 8) % 8) / 8.0); } }
+    { pbt::Reader g3(t[0]); g3.skip(13); c.customSub = g3.w() % 3 == 1; }
     c.T += c.t0;
     if (c.cpodes()) { c.interp = true; c.finalSet = false; }       // the CPodes final-time / no-interpolation deviations are C19's known findings
     // system: one complex pair, one real mode, one oscillator (closed-form solution; handlers may modify q,u,z)
@@ -151,6 +154,7 @@ Case decode(const pbt::Tape& t, bool knownZeroDir, bool knownPassReq) {
             for (int i = 0; i < n; ++i) { double x = clampIn(place(r, nullptr, nullptr)); s.times.push_back(x); }
             std::sort(s.times.begin(), s.times.end()); s.times.erase(std::unique(s.times.begin(), s.times.end()), s.times.end());
             r.i = 9; s.act = decodeAction(r); if (s.kind == 2) s.act = Action();
+            if (c.customSub) { r.i = 12; int nOwn = 0; for (auto& o : c.scheds) if (o.owner == 1 && o.kind == s.kind) nOwn++; if (r.w() % 2 == 0 && nOwn < 2) s.owner = 1; }
             for (double x : s.times) pool.push_back(x);
             c.scheds.push_back(s);
         } else if (kind == 6 || kind == 8) {
@@ -176,6 +180,7 @@ Case decode(const pbt::Tape& t, bool knownZeroDir, bool knownPassReq) {
 struct Sim {
     const Case& c; std::vector<Wit> wits;     // wits with step-end placements resolved
     anasys::AnaSystem sys; evsys::Log log; evsys::Shared sh; std::unique_ptr<evsys::DiscreteVar> dv;
+    std::unique_ptr<schedsub::ScheduleSubsystem> custom;    // second owner of scheduled events / reports (subsystem index 1, after the default subsystem)
     std::unique_ptr<Integrator> integ; anasys::Solution sol; double modelDv = 0.25;
     Sim(const Case& c, const std::vector<Wit>& w) : c(c), wits(w), sys(c.spec), sol(c.spec) {
         sys.setDefaultTimeScale(c.timescale);
@@ -183,7 +188,11 @@ struct Sim {
         sh.log = &log; sh.dv = dv.get();
         // registration order is interleaved on purpose (handlers/reporters of the different kinds are kept in separate lists by the System)
         for (size_t i = 0; i < wits.size(); ++i) { if (wits[i].reporter) sys.addEventReporter(new evsys::WitReporter(wits[i], (int)i, &sh)); else sys.addEventHandler(new evsys::WitHandler(wits[i], (int)i, &sh, c.witAct[i])); }
+        { std::vector<schedsub::Item> items;
+          for (size_t i = 0; i < c.scheds.size(); ++i) if (c.scheds[i].owner == 1) { schedsub::Item it; it.reporter = c.scheds[i].kind == 2; it.times = c.scheds[i].times; it.logId = (int)i; it.act = c.scheds[i].act; items.push_back(it); }
+          if (!items.empty()) custom.reset(new schedsub::ScheduleSubsystem(sys, items, &sh)); }
         for (size_t i = 0; i < c.scheds.size(); ++i) { const Sched& s = c.scheds[i];
+            if (s.owner == 1) continue;
             if (s.kind == 0) sys.addEventHandler(new evsys::ListHandler(s.times, (int)i, &sh, s.act)); else if (s.kind == 1) sys.addEventHandler(new evsys::PerHandler(s.interval, (int)i, &sh, s.act));
             else if (s.kind == 2) sys.addEventReporter(new evsys::ListReporter(s.times, (int)i, &sh)); else sys.addEventReporter(new evsys::PerReporter(s.interval, (int)i, &sh)); }
         integ = makeInteg(c.integ, sys, c.stepCtl ? c.h : 0.01);
@@ -279,9 +288,26 @@ struct Judge {   // the oracle state shared by both driving modes
             const Sched& s = c.scheds[i]; int src = s.kind == 0 ? evsys::SchedHandler : s.kind == 1 ? evsys::PeriodicHandler : s.kind == 2 ? evsys::SchedReporter : evsys::PeriodicReporter;
             std::vector<double> expect = (s.kind == 0 || s.kind == 2) ? s.times : evsys::periodicTimes(s.interval, c.t0, c.T), got;
             for (auto& r : S.log.recs) if (r.source == src && r.id == (int)i) got.push_back(r.t);
+            // known finding scheduled-event-merge-never-clears-ids: System::Guts::calcTimeOfNextScheduledEventImpl / ...ReportImpl merge the
+            // subsystems' answers with "if (time <= tNext) { tNext = time; if (time < tNext) ids.clear(); ...}" -- the assignment precedes the
+            // test, so the ids of an earlier-indexed subsystem whose next time is LATER are never dropped and its handlers/reporters are
+            // dispatched at the later-indexed subsystem's earlier time. Site predicate: a schedule owned by the DefaultSystemSubsystem
+            // (index 0) is invoked at a time that is not its own but is a scheduled time of the same class (event / report) owned by
+            // the user-written subsystem (index 1); exactly those extra calls are dropped from the judgement.
+            if (s.owner == 0 && S.custom) {
+                std::vector<double> kept;
+                for (double x : got) {
+                    bool own = std::find(expect.begin(), expect.end(), x) != expect.end(), customTime = false;
+                    for (auto& o : c.scheds) if (o.owner == 1 && (o.kind >= 2) == (s.kind >= 2) && std::find(o.times.begin(), o.times.end(), x) != o.times.end()) customTime = true;
+                    if (!own && customTime && excl && ctx->known("scheduled-event-merge-never-clears-ids")) { ctx->label("excluded:scheduled-event-merge-never-clears-ids"); continue; }
+                    kept.push_back(x);
+                }
+                got.swap(kept);
+            }
             size_t gi = 0;
             for (double x : expect) {
                 if (x < c.t0 || x > tStop) continue;
+                if (gi < got.size() && got[gi] < x) return fail(std::string(s.kind <= 1 ? "scheduled handler " : "scheduled reporter ") + std::to_string(i) + (s.owner == 1 ? " (custom subsystem)" : "") + ": invoked at t=" + pbt::str(got[gi]) + " which is not one of its scheduled times (its next scheduled time is " + pbt::str(x) + ")");
                 bool have = gi < got.size() && got[gi] == x;
                 if (have) { gi++; continue; }
                 if (x == tStop) continue;    // an event exactly at the end of the last request (or at the termination time) belongs to the next request: optional
@@ -603,7 +629,7 @@ void describe(const Case& c, const std::vector<Wit>& wits, pbt::Ctx& ctx) {
              << "system: " << c.spec.describe() << "\n";
     for (size_t i = 0; i < wits.size(); ++i) ctx.desc << "witness " << i << ": " << wits[i].describe() << " placed=" << c.witPlace[i] << " action=" << c.witAct[i].describe() << "\n";
     for (size_t i = 0; i < c.scheds.size(); ++i) { const Sched& s = c.scheds[i]; static const char* kn[] = {"list handler", "periodic handler", "list reporter", "periodic reporter"};
-        ctx.desc << "scheduled " << i << ": " << kn[s.kind]; if (s.kind % 2) ctx.desc << " interval=" << pbt::str(s.interval); else { ctx.desc << " times="; for (double x : s.times) ctx.desc << pbt::str(x) << " "; } ctx.desc << " action=" << s.act.describe() << "\n"; }
+        ctx.desc << "scheduled " << i << ": " << kn[s.kind]; if (s.kind % 2) ctx.desc << " interval=" << pbt::str(s.interval); else { ctx.desc << " times="; for (double x : s.times) ctx.desc << pbt::str(x) << " "; } ctx.desc << " action=" << s.act.describe() << (s.owner == 1 ? " owner=custom-subsystem" : " owner=default-subsystem") << "\n"; }
     ctx.desc << "requests (chunk ends): "; for (double x : c.reports) ctx.desc << pbt::str(x) << " "; ctx.desc << "\n";
 }
 
@@ -637,6 +663,24 @@ void judgeCase(const Case& c, pbt::Ctx& ctx, bool excl) {
     for (auto& w : wits) { ctx.label(w.reporter ? "src:triggered-reporter" : "src:triggered-handler"); ctx.label(w.kind == Wit::Linear ? "wit:linear" : "wit:sine"); ctx.label("wit:stage" + std::to_string(w.stage)); }
     for (auto& s : c.scheds) { static const char* kn[] = {"src:list-handler", "src:periodic-handler", "src:list-reporter", "src:periodic-reporter"}; ctx.label(kn[s.kind]); }
 
+    {   // two owners of scheduled events / reports: the DefaultSystemSubsystem (index 0) and the user-written subsystem (index 1)
+        for (int cls = 0; cls < 2; ++cls) {      // 0 events (handlers), 1 reports
+            std::vector<double> dt, ct;           // all times in (t0, T] of the default-owned / custom-owned schedules of this class
+            for (auto& s : c.scheds) { if ((s.kind >= 2) != (cls == 1)) continue; std::vector<double> tt = (s.kind % 2) ? evsys::periodicTimes(s.interval, c.t0, c.T) : s.times;
+                for (double x : tt) if (x >= c.t0 && x <= c.T) (s.owner == 1 ? ct : dt).push_back(x); }
+            if (ct.empty()) continue;
+            ctx.label(cls == 0 ? "sched:custom-subsystem-events" : "sched:custom-subsystem-reports");
+            if (dt.empty()) continue;
+            ctx.label("sched:two-subsystems");
+            std::sort(dt.begin(), dt.end()); std::sort(ct.begin(), ct.end());
+            // at some query time the custom subsystem's next time is strictly earlier than the default subsystem's next time
+            bool earlier = false, coincident = false;
+            for (double x : ct) { double dn = evsys::nextOf(dt, x, true); if (dn == x) coincident = true; else if (dn < Inf) earlier = true; }
+            if (earlier) ctx.label("sched:custom-earlier-than-default");
+            if (coincident) ctx.label("sched:custom-coincident-with-default");
+            { bool later = false; for (double x : dt) if (evsys::nextOf(ct, x, false) < Inf) later = true; if (later) ctx.label("sched:default-earlier-than-custom"); }
+        }
+    }
     Sim S(c, wits); Judge J(&ctx, c, S, true); J.excl = excl; double tEnd = c.t0; bool ok;
     if (c.tsMode) ok = runTimeStepper(c, S, J, ctx, tEnd);
     else ok = runDirect(c, S, J, ctx, true, nullptr, tEnd);
@@ -682,7 +726,7 @@ void addWit(Case& c, int kind, double cc, double omega, bool rising, bool fallin
 pbt::Config config() {
     pbt::Config c; c.prop = "C22"; c.K = 16; c.minUnits = 2; c.caseTimeoutSecs = 60;
     c.quick = {1000, 6000, 14, 25}; c.thorough = {6000, 40000, 16, 150};
-    c.rule = "rapidcheck tape -> mode {direct Integrator::stepTo loop with return-every-step, TimeStepper (report-all on/off)} x integrator (RK Merson, RK3, RK2, RK Feldberg, Verlet, ExplicitEuler, SemiExplicitEuler, SemiExplicitEuler2, CPodes BDF/Adams) x options {accuracy 1e-2..1e-7 or default, interpolation on/off, final time, inf norm, max/fixed step 2e-3..0.2, time scale 0.01/0.1/1, t0 0..3, T 0.3..2.5} x analytic system (complex pair + real mode + oscillator) x up to 6 time-only witnesses s(t-c)/sin(om(t-c)) (masks both/rising/falling/none, windows 1e-4..1, declared stages Time..Acceleration, handler or reporter, crossing placed random / coincident with another time / on a step end learned by a dry run / at t0 / at T) x up to 4 scheduled-list or periodic handlers/reporters x up to 5 extra report times; handler actions none/scale z/kick u/set q/set discrete/terminate. Non-trivial: >= 2 triggered calls from witnesses with different masks/kinds, or a triggered call in a case with a crossing placed on another time/step end/final time, or a state-modifying handler invoked.";
+    c.rule = "rapidcheck tape -> mode {direct Integrator::stepTo loop with return-every-step, TimeStepper (report-all on/off)} x integrator (RK Merson, RK3, RK2, RK Feldberg, Verlet, ExplicitEuler, SemiExplicitEuler, SemiExplicitEuler2, CPodes BDF/Adams) x options {accuracy 1e-2..1e-7 or default, interpolation on/off, final time, inf norm, max/fixed step 2e-3..0.2, time scale 0.01/0.1/1, t0 0..3, T 0.3..2.5} x analytic system (complex pair + real mode + oscillator) x up to 6 time-only witnesses s(t-c)/sin(om(t-c)) (masks both/rising/falling/none, windows 1e-4..1, declared stages Time..Acceleration, handler or reporter, crossing placed random / coincident with another time / on a step end learned by a dry run / at t0 / at T) x up to 4 scheduled-list or periodic handlers/reporters (in 1 case of 3 the list schedules may belong to a second, user-written Subsystem that owns up to 2 scheduled events and 2 scheduled reports next to the addEventHandler/addEventReporter ones, incl. coincident times) x up to 5 extra report times; handler actions none/scale z/kick u/set q/set discrete/terminate. Non-trivial: >= 2 triggered calls from witnesses with different masks/kinds, or a triggered call in a case with a crossing placed on another time/step end/final time, or a state-modifying handler invoked.";
     c.assumptions = {"witnesses are functions of time only, so their sign at any time the integrator reports is known exactly (same floating-point expression on both sides)",
                      "completeness is demanded on observed step boundaries: a trigger that comes and goes within one internal step may be missed (documented in takeOneStep)",
                      "the ODE step end t1 of a truncated (event) step is reconstructed from getPreviousStepSizeTaken(); crossings within 1e-9 of it are treated as ambiguous",
@@ -710,7 +754,14 @@ pbt::Config config() {
         addWit(k, Wit::Linear, 0.17700780777368644, 1, true, true); k.witAct[0].kind = Action::KickU; k.witAct[0].value = -1.49078;
         addWit(k, Wit::Linear, 0.17759421555992452, 1, true, true); k.wits[1].reporter = true; k.wits[1].window = 0.01;
         judgeCase(k, ctx, false); }});
-    c.requiredLabels = {"mode:direct", "mode:timestepper", "hit:trigger", "hit:simultaneous", "hit:window-ends-on-exact-zero", "hit:zero-at-step-end", "hit:trigger-placed-coincident", "hit:trigger-placed-step-end", "hit:trigger-placed-near", "regime:wide-window", "hit:window-split-at-pending-report",
+    c.directed.push_back({"default-handler-invoked-at-custom-subsystem-time", "scheduled-event-merge-never-clears-ids", [](pbt::Ctx& ctx) {
+        // DefaultSystemSubsystem (index 0): list handler at t=0.5 and list reporter at t=0.6; user-written subsystem (index 1): scheduled event at
+        // t=0.3 and scheduled report at t=0.2 -> the default handler must be called at 0.5 only, the default reporter at 0.6 only
+        Case k = baseCase(0, true, 1.0); k.customSub = true;
+        Sched a; a.kind = 0; a.interval = 0; a.times = {0.5}; k.scheds.push_back(a); Sched b; b.kind = 0; b.interval = 0; b.times = {0.3}; b.owner = 1; k.scheds.push_back(b);
+        Sched r1; r1.kind = 2; r1.interval = 0; r1.times = {0.6}; k.scheds.push_back(r1); Sched r2; r2.kind = 2; r2.interval = 0; r2.times = {0.2}; r2.owner = 1; k.scheds.push_back(r2);
+        judgeCase(k, ctx, false); }});
+    c.requiredLabels = {"sched:two-subsystems", "sched:custom-earlier-than-default", "sched:custom-coincident-with-default", "sched:default-earlier-than-custom", "sched:custom-subsystem-events", "sched:custom-subsystem-reports", "mode:direct", "mode:timestepper", "hit:trigger", "hit:simultaneous", "hit:window-ends-on-exact-zero", "hit:zero-at-step-end", "hit:trigger-placed-coincident", "hit:trigger-placed-step-end", "hit:trigger-placed-near", "regime:wide-window", "hit:window-split-at-pending-report",
                         "src:triggered-reporter", "src:periodic-handler", "src:periodic-reporter", "src:list-handler", "src:list-reporter", "action:scaleZ", "action:kickU", "action:setQ", "action:setDiscrete", "hit:terminated-by-handler",
                         "integ:RungeKuttaMerson", "integ:RungeKutta3", "integ:RungeKutta2", "integ:RungeKuttaFeldberg", "integ:Verlet", "integ:ExplicitEuler", "integ:SemiExplicitEuler", "integ:SemiExplicitEuler2", "integ:CPodesBDF", "integ:CPodesAdams"};
     return c;
